@@ -70,6 +70,15 @@ Definition kstep (s : kstate) (o : kop) : kstate * kres :=
   | OExists id => (s, RBool (match lookup (ks_store s) id with Some _ => true | None => false end))
   end.
 Definition krun (ops : list kop) (s : kstate) : kstate := fold_left (fun a o => fst (kstep a o)) ops s.
+(* the Stronghold-backed store (identity_stronghold/src/storage/stronghold_jwk_storage.rs): the same contract; it additionally expands the secret of
+   an inserted JWK (ed25519::expand_secret_jwk), so a private member that is not a 32-byte key is refused at insertion instead of at signing *)
+Definition kstep_sh (s : kstate) (o : kop) : kstate * kres :=
+  match o with
+  | OInsert j => match kstep s o with
+                 | (s', RId id) => if j_d_ok j then (s', RId id) else (s, RErr EUnspecified)
+                 | r => r end
+  | _ => kstep s o
+  end.
 
 (* ---- key-id store: method digest -> key id ---- *)
 Definition idstore := list (Z * Z).
